@@ -477,7 +477,18 @@ def sink_delegation(ctx, tag, types):
                 recv = P.root(P.operand(m, t['args'][0], at=bb))
                 ok = bool(recv) and all(x == ('param', m.id, 1) and P.fpath(p) for x, p in recv)
                 rr = deep_roots(P, P._local_whole(m, 0))
-                ok = ok and bool(rr) and all(P.unbound(x) == ('call', m.id, bb) for x, _ in rr)
+                direct = bool(rr) and all(P.unbound(x) == ('call', m.id, bb) for x, _ in rr)
+                if ok and not direct:
+                    # some path returns without the inner outcome.  If that path is chosen by the wrapper's own state (a flag it keeps), whether the
+                    # skip is right depends on how that state is maintained across calls — not decidable by this rule
+                    for i_, b_ in enumerate(m.blocks):
+                        if b_['cleanup'] or b_['term']['k'] != 'switch' or b_['term']['discr']['k'] not in ('copy', 'move'):
+                            continue
+                        dr = P.root(P.operand(m, b_['term']['discr'], at=i_))
+                        if dr and all(x == ('param', m.id, 1) and P.fpath(p_) for x, p_ in dr):
+                            raise CannotDecide('%s::%s skips the wrapped sink\'s %s depending on state the wrapper keeps (self.%s): a stateful wrapper is outside the delegation rule'
+                                               % (ty.split('::')[-1], meth, meth, '.'.join(str(z) for z in P.fpath(dr[0][1]))))
+                ok = ok and direct
             R.ob(tag, (ty.split('::')[-1], meth, 'delegates to the same operation of the wrapped sink'), ok,
                  '%s of the wrapper performs exactly %s on the sink it wraps and returns its outcome (closing really closes, flushing really flushes)' % (meth, meth),
                  [m.loc(t) for _, t in inner], 'inner operations called: %s' % names_)
